@@ -4,6 +4,7 @@ import (
 	"encoding/json"
 	"fmt"
 	"math/rand/v2"
+	"os"
 	"strconv"
 	"strings"
 	"sync"
@@ -35,9 +36,18 @@ type onceVec struct {
 	Zero []string `json:"zero"`
 	// Panic: the keys whose constructor invocation panics.  Stuck: the
 	// processes the model leaves blocked for good in a Get of such a key.
-	Panic []string   `json:"panic"`
-	Stuck []int      `json:"stuck"`
-	Steps []onceStep `json:"steps"`
+	Panic []string `json:"panic"`
+	// Dep[k]: the key the constructor of k fetches with a nested Get first ("-" = none).
+	Dep   map[string]string `json:"dep"`
+	Stuck []int             `json:"stuck"`
+	Steps []onceStep        `json:"steps"`
+}
+
+func (v *onceVec) dep(k string) string {
+	if d := v.Dep[k]; d != "" && d != "-" {
+		return d
+	}
+	return ""
 }
 
 func (v *onceVec) isPanic(k string) bool {
@@ -91,6 +101,7 @@ type onceInst interface {
 	raceRound(round int, seedRng *rand.Rand, res *vh.Result) (gets, nkeys int, err error)
 	stressRound(round int, seedRng *rand.Rand, clock *atomic.Int64, tr *vh.Trace, res *vh.Result) (gets int, err error)
 	panicRound(round int, seedRng *rand.Rand, clock *atomic.Int64, tr *vh.Trace, res *vh.Result, tag string) (gets int, err error)
+	slowRound(round int, seedRng *rand.Rand, res *vh.Result, tag string) (gets int, err error)
 }
 
 func (in inst[K, V]) instName() string { return in.name }
@@ -99,6 +110,9 @@ func (in inst[K, V]) replay(v *onceVec, wait time.Duration) outcome {
 }
 func (in inst[K, V]) raceRound(round int, seedRng *rand.Rand, res *vh.Result) (int, int, error) {
 	return raceOnceRound(in, round, seedRng, res)
+}
+func (in inst[K, V]) slowRound(round int, seedRng *rand.Rand, res *vh.Result, tag string) (int, error) {
+	return slowKeyRound(in, round, seedRng, res, tag)
 }
 func (in inst[K, V]) panicRound(round int, seedRng *rand.Rand, clock *atomic.Int64, tr *vh.Trace, res *vh.Result, tag string) (int, error) {
 	return panicRound(in, round, seedRng, clock, tr, res, tag)
@@ -320,9 +334,19 @@ type outcome struct {
 	detail map[string]any
 	steps  int
 	unconf int
+	// evidence: a hang that is conclusive by itself: the goroutine was seen
+	// parked inside syncutil, for the whole wait, in a call the specification
+	// says can never wait (Release).
+	evidence bool
 	// crossKey counts Gets that completed while the constructor of another
 	// key was parked (the third clause of C17, observed positively).
 	crossKey int
+}
+
+// nestedRes is the result of one nested Get made by a constructor.
+type nestedRes[V any] struct {
+	key string
+	x   V
 }
 
 // onceRun is the state of one replay of one schedule.
@@ -347,7 +371,11 @@ type onceRun[K comparable, V any] struct {
 	// the controller also while p runs); failedKeys: keys whose constructor panicked.
 	ended      []int
 	failedKeys map[string]bool
-	log        []string
+	// nestKey[name]: the key of the nested Get the constructor running in
+	// goroutine name is making right now; nested: what the nested Gets returned.
+	nestKey map[string]string
+	nested  []nestedRes[V]
+	log     []string
 	// fnCalls0: userFnInvoked when the run started
 	fnCalls0 int64
 }
@@ -360,12 +388,27 @@ func newOnceRun[K comparable, V any](v *onceVec, in inst[K, V]) *onceRun[K, V] {
 	r.how = make([][]string, v.NP+1)
 	r.ended = make([]int, v.NP+1)
 	r.failedKeys = map[string]bool{}
+	r.nestKey = map[string]string{}
 	r.oc = syncutil.NewOnceConstructor(func(kk K) V {
 		k := in.str(kk)
 		r.mu.Lock()
 		r.entered[k]++
 		r.mu.Unlock()
 		r.c.s.Gate("construct")
+		if d := v.dep(k); d != "" {
+			// the constructor of k needs the value of d: a nested Get by the same
+			// goroutine, through the same gates, while it holds k's token
+			me, _ := r.c.s.Current()
+			r.mu.Lock()
+			r.nestKey[me] = d
+			r.mu.Unlock()
+			y := r.oc.Get(in.key(d))
+			r.mu.Lock()
+			delete(r.nestKey, me)
+			r.nested = append(r.nested, nestedRes[V]{d, y})
+			r.mu.Unlock()
+			r.c.s.Gate("construct2")
+		}
 		r.mu.Lock()
 		defer r.mu.Unlock()
 		// The model draws a fresh value id per constructor call; for the keys
@@ -408,10 +451,25 @@ func (r *onceRun[K, V]) get(k string) (x V, how string) {
 // pendingKeyFailed reports whether p is inside a Get of a key whose
 // constructor invocation panicked (such a Get may stay blocked for good).
 func (r *onceRun[K, V]) pendingKeyFailed(p int) bool {
+	k := r.pendingKey(p)
 	r.mu.Lock()
 	defer r.mu.Unlock()
+	return k != "" && r.failedKeys[k]
+}
+
+// pendingKey is the key of the Get p is inside right now: the key of the
+// nested Get if p's constructor is making one, else p's next planned key.
+func (r *onceRun[K, V]) pendingKey(p int) string {
+	r.mu.Lock()
+	defer r.mu.Unlock()
+	if k, ok := r.nestKey[pname(p)]; ok {
+		return k
+	}
 	plan := r.v.Plan[p-1]
-	return r.ended[p] < len(plan) && r.failedKeys[plan[r.ended[p]]]
+	if r.ended[p] < len(plan) {
+		return plan[r.ended[p]]
+	}
+	return ""
 }
 
 // consSnapshot returns the constructor calls that have completed, per key.
@@ -441,7 +499,7 @@ func (r *onceRun[K, V]) inProgress() map[string]bool {
 // expectArrival maps the model's stop point of p to what the scheduler shows.
 func (r *onceRun[K, V]) expectArrival(p int, to string, callsDone int) (sched.Status, string) {
 	switch to {
-	case "once.miss", "once.stored", "construct":
+	case "once.miss", "once.stored", "construct", "construct2":
 		return sched.AtGate, to
 	case "done":
 		if callsDone < len(r.v.Plan[p-1]) {
@@ -489,6 +547,9 @@ func replayOnceG[K comparable, V any](v *onceVec, wait time.Duration, in inst[K,
 	// hangVerdict classifies "p did not arrive although the model says it can".
 	hangVerdict := func(p int, st onceStep) (bool, string) {
 		k := curKey[p]
+		if pk := r.pendingKey(p); pk != "" {
+			k = pk
+		}
 		prog := r.inProgress()
 		if r.pendingKeyFailed(p) {
 			// the constructor for this key panicked: staying blocked is what the
@@ -691,6 +752,15 @@ func (r *onceRun[K, V]) apiCheck() (class, what string) {
 			return "violation", fmt.Sprintf("the constructor was invoked %d times for key %q (%s%s)", n, k, r.in.name, note)
 		}
 	}
+	for _, nr := range r.nested {
+		if n := r.exited[nr.key]; n != 1 || len(r.ptrs[nr.key]) != 1 {
+			return "violation", fmt.Sprintf("the constructor was invoked %d times for key %q (%s)", n, nr.key, r.in.name)
+		}
+		if c := r.ptrs[nr.key][0]; !r.in.identical(nr.x, c) || r.in.id(nr.x) != r.in.id(c) {
+			return "violation", fmt.Sprintf("the nested Get(%q) made by a constructor returned %v, not the single constructed result %v (%s)",
+				nr.key, deref(r.in.id(nr.x)), deref(r.in.id(c)), r.in.name)
+		}
+	}
 	for p := 1; p <= r.v.NP; p++ {
 		plan := r.v.Plan[p-1]
 		if pv := r.c.s.PanicOf(pname(p)); pv != nil {
@@ -779,6 +849,10 @@ func replayOnceCmd(args []string) error {
 			key := v.key()
 			if which != "ptr" {
 				key += " [" + which + "]"
+			}
+			if g := os.Getenv("GOMAXPROCS"); g != "" {
+				// the ambient configuration this process runs under is part of the failing input
+				key += " [GOMAXPROCS=" + g + "]"
 			}
 			o := replayOnce(&v, hangWait, which)
 			steps += o.steps
